@@ -8,18 +8,37 @@ namespace PatchModel.C10
 open PatchModel PatchModel.Fault
 
 /-- **single fault**: if the k-th file system operation of a run fails, the run ends with an exception (`main` prints a diagnostic and
-    exits with status 2) — nothing in the driver catches, ignores or retries a failed operation -/
+    exits with status 2) — nothing in the driver catches, ignores or retries a failed operation, with one exception (D105): a
+    `chmod` to the permissions which the file has at that moment (`ToleratedChmod`: both runs did the same operations `t1` up to
+    there, the fault-free run goes on with `chmod path m`, and `path` has the permissions `m` in the tree after `t1`) -/
 theorem fault_is_fatal (o : Options) (s0 : DState) (k : Nat) (hk : s0.faultAt = some k) (hc : s0.opCount = 0)
     (hh : o.showHelp = false ∧ o.showVersion = false)
     (hreached : (runPatch o s0).2.opCount > k) :
-    (runPatch o s0).1 = 2 := by
+    (runPatch o s0).1 = 2 ∨
+    ToleratedChmod { s0 with faultAt := none } (runPatch o { s0 with faultAt := none }).2 (runPatch o s0).2 := by
   have _ := hh   -- not needed: with help/version the counter stays 0, which `hreached` excludes
   have e : wf k { s0 with faultAt := none } = s0 := by cases s0; cases hk; rfl
   have h := runPatch_out o { s0 with faultAt := none } k rfl (by show s0.opCount ≤ k; omega)
   rw [e] at h
-  rcases h with ⟨_, h2, h3⟩ | ⟨_, _, h3, _⟩
+  rcases h with ⟨_, h2, h3⟩ | ⟨_, _, h3, _⟩ | ⟨_, _, h3⟩
   · rw [h2, wf_opCount] at hreached; omega
-  · exact h3
+  · exact .inl h3
+  · exact .inr h3
+
+/-- the exception is an exception: a fault which hits anything but a `chmod` is fatal -/
+theorem fault_is_fatal_unless_chmod (o : Options) (s0 : DState) (k : Nat) (hk : s0.faultAt = some k) (hc : s0.opCount = 0)
+    (hreached : (runPatch o s0).2.opCount > k)
+    (hno : ∀ p m, FsOp.chmod p m ∉ (runPatch o { s0 with faultAt := none }).2.trace) :
+    (runPatch o s0).1 = 2 := by
+  by_cases hh : o.showHelp = false ∧ o.showVersion = false
+  · rcases fault_is_fatal o s0 k hk hc hh hreached with h | ⟨t1, path, m, _, ⟨t2, h⟩, _⟩
+    · exact h
+    · exact absurd (by rw [h]; simp) (hno path m)
+  · have e : (o.showHelp || o.showVersion) = true := by
+      cases h1 : o.showHelp <;> cases h2 : o.showVersion <;> simp_all
+    rw [runPatch_help o s0 e] at hreached
+    simp only at hreached
+    omega
 
 /-- a fault scheduled beyond the last operation of the run is harmless: the run is identical to the fault-free run -/
 theorem fault_not_reached (o : Options) (s0 : DState) (k : Nat) (hc : s0.opCount = 0)
@@ -30,23 +49,28 @@ theorem fault_not_reached (o : Options) (s0 : DState) (k : Nat) (hc : s0.opCount
   have h := runPatch_out o { s0 with faultAt := none } k rfl (by show s0.opCount ≤ k; omega)
   have e : wf k { s0 with faultAt := none } = { s0 with faultAt := some k } := rfl
   rw [e] at h
-  rcases h with ⟨h1, h2, _⟩ | ⟨h1, _⟩
+  rcases h with ⟨h1, h2, _⟩ | ⟨h1, _⟩ | ⟨h1, _⟩
   · exact ⟨h1, by rw [h2, wf_fs], by rw [h2, wf_out]⟩
   · omega
+  · omega
 
-/-- up to the fault the two runs are the same run: the operations performed before it are a prefix of the fault-free trace -/
+/-- up to the fault the two runs are the same run: the operations performed before it are a prefix of the fault-free trace — and
+    all of them, unless the fault was a tolerated one (D105), where the trace goes on without the `chmod` which failed -/
 theorem fault_prefix (o : Options) (s0 : DState) (k : Nat) (hc : s0.opCount = 0) (ht : s0.trace = []) :
-    ∃ rest, (runPatch o { s0 with faultAt := none }).2.trace = (runPatch o { s0 with faultAt := some k }).2.trace ++ rest := by
+    (∃ rest, (runPatch o { s0 with faultAt := none }).2.trace = (runPatch o { s0 with faultAt := some k }).2.trace ++ rest) ∨
+    ToleratedChmod { s0 with faultAt := none } (runPatch o { s0 with faultAt := none }).2 (runPatch o { s0 with faultAt := some k }).2 := by
   have _ := ht   -- not needed: both runs start from the same trace
   have h := runPatch_out o { s0 with faultAt := none } k rfl (by show s0.opCount ≤ k; omega)
   have e : wf k { s0 with faultAt := none } = { s0 with faultAt := some k } := rfl
   rw [e] at h
-  rcases h with ⟨_, h2, _⟩ | ⟨_, _, _, h4⟩
-  · exact ⟨[], by rw [h2, wf_trace, List.append_nil]⟩
-  · exact h4
+  rcases h with ⟨_, h2, _⟩ | ⟨_, _, _, h4⟩ | ⟨_, _, h3⟩
+  · exact .inl ⟨[], by rw [h2, wf_trace, List.append_nil]⟩
+  · exact .inl h4
+  · exact .inr h3
 
 end PatchModel.C10
 
 #print axioms PatchModel.C10.fault_is_fatal
+#print axioms PatchModel.C10.fault_is_fatal_unless_chmod
 #print axioms PatchModel.C10.fault_not_reached
 #print axioms PatchModel.C10.fault_prefix
